@@ -73,18 +73,12 @@ Theorem kelvin_roundtrip : forall off k, to_kelvin off (from_kelvin off k) == k.
 Proof. exact ConvertProofs.kelvin_roundtrip. Qed.
 Print Assumptions kelvin_roundtrip.
 
-Theorem celsius_quantity_roundtrip_partial : forall off ks kd c,
-  ~ ks == 0 -> wf_dim kd -> ~ c + off == 0 ->
-  exists sv dv, to_kelvin_quantity off (VQ ks) kd c = Ok (sv, dv) /\
+Theorem celsius_quantity_roundtrip : forall off ks kd td c,
+  ~ ks == 0 -> deqb td kd = true ->
+  exists sv dv, to_kelvin_quantity off (VQ ks) kd td c = Ok (sv, dv) /\
     exists c', from_kelvin_quantity off (VQ ks) kd sv dv = Ok (VQ c') /\ c' == c.
-Proof. exact ConvertProofs.celsius_quantity_roundtrip_partial. Qed.
-Print Assumptions celsius_quantity_roundtrip_partial.
-
-Theorem celsius_quantity_roundtrip_refuted :
-  exists off ks kd c sv dv,
-    to_kelvin_quantity off (VQ ks) kd c = Ok (sv, dv) /\ from_kelvin_quantity off (VQ ks) kd sv dv = Err E_TYPE.
-Proof. exact ConvertProofs.celsius_quantity_roundtrip_refuted. Qed.
-Print Assumptions celsius_quantity_roundtrip_refuted.
+Proof. exact ConvertProofs.celsius_quantity_roundtrip. Qed.
+Print Assumptions celsius_quantity_roundtrip.
 
 (* the SI value: x * (product of the base units' scales to the dimension's exponents) = scale *)
 Theorem convert_to_si_value : forall tbl a d,
